@@ -715,8 +715,9 @@ pub fn adts_frame(tag: u32, len: usize, protected: bool) -> (Vec<u8>, Vec<u8>) {
 }
 
 pub fn opus_packet(tag: u32, len: usize) -> Vec<u8> {
-    // TOC: config 15 (SILK WB 60 ms), mono, code 0
-    let mut p = vec![(15 << 3) | 0];
+    // TOC: code 0 (one frame), mono; the configuration (and with it the coded duration: 60, 20,
+    // 2.5, 10 ms under RFC 6716) varies with the tag
+    let mut p = vec![([15u8, 4, 24, 0][(tag % 4) as usize] << 3) | 0];
     p.extend(body(tag.wrapping_add(0x23), len.max(1)));
     p
 }
